@@ -26,8 +26,8 @@ def generate(rng, tier, override=0):
     return [conn_gen.gen_session(rng, tier, PROFILE(i)) for i in range(n)]
 
 
-def py_oracle(ops, outs):
-    return conn_mon.monitor(ops, outs, ID)
+def py_oracle_ex(ops, outs, extras):
+    return conn_mon.monitor(ops, outs, ID, extras)
 
 
 def signature(case, i, what):
